@@ -10,7 +10,9 @@ from concurrent.futures import ThreadPoolExecutor
 VERIF = os.path.dirname(os.path.dirname(os.path.abspath(__file__)))
 REPO = os.environ.get('COMA_REPO', '/repo')
 COQ = os.path.join(VERIF, 'coq')
-WORK = os.path.join(VERIF, 'work')
+WORK = os.environ.get('COMA_WORK', os.path.join(VERIF, 'work'))
+EVID = os.environ.get('COMA_EVIDENCE', os.path.join(VERIF, 'evidence'))
+REPLAYS = os.environ.get('COMA_REPLAYS', os.path.join(VERIF, 'replays'))
 COQFLAGS = ['-Q', 'model', '', '-Q', 'proofs', '', '-Q', 'props', '']
 NCPU = min(16, os.cpu_count() or 4)
 ALLOWED_AXIOMS = ()   # every property theorem is expected to be closed; extend only with stdlib axioms named in DESIGN.md §8
@@ -206,7 +208,7 @@ class Report:
         self.violations.append(dict(kind=kind, what=what, replay=replay, no_input=no_input))
 
     def write_replay(self, v, idx):
-        d = os.path.join(VERIF, 'replays', self.pid)
+        d = os.path.join(REPLAYS, self.pid)
         os.makedirs(d, exist_ok=True)
         p = os.path.join(d, '%s_%s_%d.json' % (self.pid, v['kind'], idx))
         with open(p, 'w') as f:
@@ -231,8 +233,8 @@ class Report:
         cov.update({k: v for k, v in self.extra.items() if k != 'exhaustive'})
         ev = dict(property_id=self.pid, tier=self.tier, seed=int(self.seed), level='proof', coverage=cov,
                   assumptions=self.assumptions, wall_s=round(wall, 2), violations=len(self.violations))
-        os.makedirs(os.path.join(VERIF, 'evidence'), exist_ok=True)
-        with open(os.path.join(VERIF, 'evidence', self.pid + '.json'), 'w') as f:
+        os.makedirs(EVID, exist_ok=True)
+        with open(os.path.join(EVID, self.pid + '.json'), 'w') as f:
             json.dump(ev, f, indent=1, default=str)
         for k in self.known:
             print('KNOWN-FINDING: property=%s %s' % (self.pid, k))
